@@ -236,12 +236,26 @@ def run(ctx):
 
     # ---- R16.2 guard truth table
     def guard_table(fn):
+        """{(ltag, rtag): 1 when the array case goes on to compare the elements (the branch taken holds the call of the
+        list-level function), 0 when it answers from the element types alone} - independent of how the test is phrased"""
         sw = C.find_switches(u.body(fn))[0]
         stmts = C.case_table(sw)[ord("a")]
-        ifs = [x for s in stmts for x in A.walk(s) if x.get("kind") == "IfStmt"]
+        flat = []
+        for s_ in stmts:
+            flat += A.kids(s_) if s_.get("kind") == "CompoundStmt" else [s_]
+        ifs = [x for x in flat if x.get("kind") == "IfStmt"]
         if not ifs:
             raise AnalysisBroken("%s: no element-type guard in case 'a'" % fn.get("name"))
-        cond = A.kids(ifs[0])[0]
+        the_if = ifs[0]
+        before = flat[:flat.index(the_if)]
+        cond = A.kids(the_if)[0]
+
+        def recurses(branch):
+            return branch is not None and any(A.callee_name(c) in ("rtosc_arg_vals_eq", "rtosc_arg_vals_cmp") for c in A.calls_in(branch))
+        then_b = A.kids(the_if)[1]
+        else_b = A.kids(the_if)[2] if len(A.kids(the_if)) > 2 else None
+        if recurses(then_b) == recurses(else_b):
+            raise AnalysisBroken("%s: the element comparison is not on exactly one side of the guard in case 'a'" % fn.get("name"))
         ps = u.params(fn)
         tab = {}
         alpha = sorted(set("ifsbhtdScrmTFNI"))
@@ -249,13 +263,22 @@ def run(ctx):
             def call(name, args, n, lt=lt, rt=rt):
                 if name == "rtosc_av_arr_type":
                     return ord(lt) if args[0] == "L" else ord(rt)
+                if name in ("rtosc_av_arr_len",):
+                    return 1
+                fns = [f for f in u.functions.get(name, []) if u.body(f) is not None]
+                if len(fns) == 1:
+                    return ev.call_function(u, fns[0], args)
                 raise FD.Unknown("call " + str(name), n)
             ev = FD.Eval(env={ps[0]["id"]: "L", ps[1]["id"]: "R"}, call=call)
             try:
-                tab[(lt, rt)] = 1 if ev.ev(cond) else 0
+                for s_ in before:
+                    if s_.get("kind") == "DeclStmt":
+                        ev.run(s_)
+                taken = then_b if ev.ev(cond) else else_b
+                tab[(lt, rt)] = 1 if recurses(taken) else 0
             except FD.Unknown as e:
                 raise AnalysisBroken("R16.2: guard of %s not evaluable: %s" % (fn.get("name"), e))
-        return tab, ifs[0]
+        return tab, the_if
     ge, ife = guard_table(eqf)
     gc, ifc = guard_table(cmpf)
     diff = sorted(k for k in ge if ge[k] != gc[k])
@@ -263,7 +286,7 @@ def run(ctx):
            key="R16.2:array-guard", what="array element-type guard differs between eq and cmp for %d tag pairs, e.g. %s" % (len(diff), diff[:4]))
     # comparable pairs are symmetric and reflexive
     asym = sorted(k for k in ge if ge[k] != ge[(k[1], k[0])])
-    ctx.ob("R16.2", "array-guard symmetric", not asym and all(ge[(t, t)] == 0 for t in "ifsbTF"), site=A.where(ife),
+    ctx.ob("R16.2", "array-guard symmetric", not asym and all(ge[(t, t)] == 1 for t in "ifsbTF"), site=A.where(ife),
            detail={"asymmetric_pairs": ["%s/%s" % d for d in asym[:8]]}, what="eq's array guard is not symmetric: %s" % asym[:4])
 
     # ---- R16.3
